@@ -8,7 +8,7 @@ check("C14", "model_checking",
       "(Trace_Lex re-lexes the logged bytes). Exhaustive within the bound on the real code, sampled beyond it.",
       "Trusted: TLC, the rule PenneLex.tla, Wide.tla (model-checked limb arithmetic; NumValue is checked against Wide!Parse on every "
       "enumerated literal), the projection of tokens in harness/src/lex/obs.rs. Unconstrained cells (docs silent) are listed in "
-      "docs/notes-lex.md. Deviations are keyed by a precisely described input shape (signature :: text); 8 genuine findings are "
-      "proposed for known_findings.json in docs/notes-lex.md.",
+      "docs/notes-lex.md. Deviations are keyed by a precisely described input shape (signature :: text); the genuine findings, their "
+      "known_findings.json entries and the prepared fix branch are in docs/notes-lex.md.",
       "TLA+ reference lexer + TLC exhaustive enumeration with tiling invariants, replay of every text on both real lexers, TLC trace validation of recorded token streams",
       "DESIGN.md section 5 C14")
